@@ -578,6 +578,45 @@ class Ctx(object):
                 self.solver.set("timeout", FEAS_TIMEOUT_MS)
         return None
 
+    def check_min(self, hyps, concl, label, detail=None, timeout_ms=None):
+        """Discharge `concl` from the explicit hypotheses `hyps` only (each must already be part of the path
+        condition), in a fresh QF_NRA solver: a lemma proved from a subset of the path condition holds on the
+        path.  On success the lemma is added to the path condition.  Returns True / None (unknown) / False."""
+        ids = set(c.get_id() for c in self.pc)
+        for h in hyps:
+            if h.get_id() not in ids:
+                raise HarnessError("check_min: hypothesis is not part of the path condition: %s" % str(h)[:200])
+        self.stats.obligations += 1
+        t0 = time.time()
+        s = z3.SolverFor("QF_NRA")
+        s.set("timeout", timeout_ms or NRA_TIMEOUT_MS)
+        for ax in self.global_axioms:
+            s.add(ax)
+        for h in hyps:
+            s.add(h)
+        s.add(z3.Not(concl))
+        r = str(s.check())
+        dt = time.time() - t0
+        self.stats.solver_s += dt
+        self.stats.obl_s += dt
+        if dt > self.stats.slowest[0]:
+            self.stats.slowest = (round(dt, 2), label, r, str(concl)[:300])
+        if r == "unsat":
+            self.stats.obl_unsat += 1
+            self._label(label, 0)
+            self.pc.append(concl)
+            return True
+        if r == "sat":
+            # not provable from the subset: fall back to the full path condition
+            self.stats.obligations -= 1
+            rr = self.check(concl, label, detail)
+            if rr is True:
+                self.pc.append(concl)
+            return rr
+        self.stats.obl_unknown += 1
+        self._label(label, 2)
+        return None
+
     def fail(self, label, detail):
         """Obligation that is violated on this whole path (e.g. an exception escaped)."""
         return self.check(False, label, detail)
